@@ -62,6 +62,8 @@ class Ctl(object):
             line = 'GETINFO ' + name
         elif kind == 'Q':
             line = 'QUIT'                 # through the public quit() wrapper
+        elif kind == 'L':
+            line = name + ' first\nsecond part\n'      # text with line feeds of its own: written as it is (plus the final CRLF)
         else:
             line = name
         s = Sub(idx, kind, name, line)
@@ -78,7 +80,7 @@ class Ctl(object):
 
         self.log.append('submit #%d %s %r' % (idx, kind, line))
         try:
-            if kind == 'P':
+            if kind in ('P', 'L'):
                 d = self.proto.queue_command(line)
             elif kind == 'B':
                 # a command given as bytes, with a value that is not ASCII (a str command is ASCII-encoded by the library)
